@@ -1250,7 +1250,7 @@ func (e *Enc) callWrites(li *loopInfo, ci ssa.CallInstruction, ws writeSets) boo
 			args = append(args, e.val(a))
 		}
 		if inv {
-			se := &specEnv{e: e, old: e.cur, cur: e.cur, binds: map[string]specVal{}, noLocal: true}
+			se := &specEnv{e: e, old: e.cur, cur: e.cur, binds: map[string]specVal{}, noLocal: true, pure: true}
 			if fn != nil {
 				se.pkg = fn.Pkg.Pkg
 				for i, p := range fn.Params {
@@ -1355,7 +1355,7 @@ func (e *Enc) contractModNames(fc *FuncContract, fn *ssa.Function, c *ssa.CallCo
 	if fc.ModAll {
 		return nil, true
 	}
-	se := &specEnv{e: e, old: e.entry, cur: e.entry, binds: map[string]specVal{}, noLocal: true}
+	se := &specEnv{e: e, old: e.entry, cur: e.entry, binds: map[string]specVal{}, noLocal: true, pure: true}
 	if fn != nil {
 		se.pkg = fn.Pkg.Pkg
 		for _, p := range fn.Params {
